@@ -41,10 +41,10 @@ type numRef struct {
 }
 
 var (
-	max32       = new(big.Rat).SetFloat64(math.MaxFloat32)
-	max64       = new(big.Rat).SetFloat64(math.MaxFloat64)
-	overflow32  = ratPow2Diff(128, 103)  // MaxFloat32 + ulp/2 = 2^128 - 2^103
-	overflow64  = ratPow2Diff(1024, 970) // MaxFloat64 + ulp/2 = 2^1024 - 2^970
+	max32      = new(big.Rat).SetFloat64(math.MaxFloat32)
+	max64      = new(big.Rat).SetFloat64(math.MaxFloat64)
+	overflow32 = ratPow2Diff(128, 103)  // MaxFloat32 + ulp/2 = 2^128 - 2^103
+	overflow64 = ratPow2Diff(1024, 970) // MaxFloat64 + ulp/2 = 2^1024 - 2^970
 )
 
 func ratPow2Diff(a, b uint) *big.Rat {
